@@ -1230,6 +1230,31 @@ fn get_nonterminals_resolution_order(
         debug_assert!(path.is_empty());
     }
 
+    // Whatever is still unvisited is reachable only through a cycle: find and report it.
+    let unvisited: Vec<Ustr> = dependency_graph
+        .keys()
+        .filter(|vertex| !visited.contains(*vertex))
+        .copied()
+        .collect();
+    for vertex in unvisited {
+        if visited.contains(&vertex) {
+            continue;
+        }
+        path.push((
+            vertex,
+            nonterminal_definitions.get(&vertex).unwrap().lhs_span,
+        ));
+        traverse_nonterminal_dependencies_dfs(
+            vertex,
+            &dependency_graph,
+            &mut path,
+            &mut visited,
+            &mut result,
+        )?;
+        path.clear();
+        result.push(vertex);
+    }
+
     // Filter out nonterminals that don't depend on any other as they are already fully resolved.
     result.retain(|vertex| {
         dependency_graph
